@@ -55,6 +55,16 @@ def main():
             if op["op"] == "parse":
                 pycfmodel.parse(op["template"])
                 res = {"outcome": "ok"}
+            elif op["op"] == "parse_deep":
+                v = "leaf"
+                for _ in range(op["depth"]):
+                    v = {"k": v} if op["kind"] == "obj" else [v]
+                if op["where"] == "metadata":
+                    t = {"Metadata": {"M": v}, "Resources": {}}
+                else:
+                    t = {"Resources": {"R": {"Type": "Custom::Deep", "Properties": {"P": v}}}}
+                pycfmodel.parse(t)
+                res = {"outcome": "ok"}
             elif op["op"] == "pipeline":
                 stage = "parse"
                 m = pycfmodel.parse(op["template"])
